@@ -1409,12 +1409,17 @@ def fam_topo(cs, rng):
 # ---------------------------------------------------------------------------------------- family: ld
 
 
-def gen_infinite_sites(rng, max_sites=8):
-    """Topology + sites carrying exactly one non-silent mutation each (what LdCalculator supports)."""
+def gen_infinite_sites(rng, max_sites=8, big=False):
+    """Topology + sites carrying exactly one non-silent mutation each (what LdCalculator supports).
+    big: sample counts around the 32/64-bit word boundaries of the two-locus bit arrays."""
     m = None
     for attempt in range(20):
-        m = gen.gen_topology(rng, max_nodes=9, max_bp=4, sample_mode="all" if attempt > 3 else None,
-                             gaps=rng.random() < 0.3)
+        if big:
+            m = gen.gen_topology(rng, n=rng.choice([31, 32, 33, 34, 63, 64, 65, 66, 70]), max_bp=2,
+                                 sample_mode=rng.choice(["all", "any", "young"]), gaps=False)
+        else:
+            m = gen.gen_topology(rng, max_nodes=9, max_bp=4, sample_mode="all" if attempt > 3 else None,
+                                 gaps=rng.random() < 0.3)
         if len(m.samples()) >= 2:
             break
     ns = rng.randint(2, max_sites)
@@ -1429,7 +1434,14 @@ def gen_infinite_sites(rng, max_sites=8):
 
 
 def fam_ld(case, ctx, rng):
-    m = gen_infinite_sites(rng) if rng.random() < 0.6 else gen_model(rng, max_sites=7)
+    r = rng.random()
+    if r < 0.12:
+        m = gen_infinite_sites(rng, max_sites=6, big=True)
+        ctx.feature("ld:many-samples")
+    elif r < 0.65:
+        m = gen_infinite_sites(rng)
+    else:
+        m = gen_model(rng, max_sites=7)
     cs = Case(m, ctx)
     ts, ref = cs.ts, cs.ref
     ctx.sig(("C08", "ld", m.signature()), nontrivial=len(m.sites) >= 2)
@@ -1444,8 +1456,31 @@ def fam_ld(case, ctx, rng):
         D, den = ref.biallelic_r2(j, k, idx)
         return (D * D / den) if den > 1e-12 else None
 
-    # ---- ld_matrix(stat="r2")
-    for rep in range(2):
+    # ---- ld_matrix: r2 and the other classical two-locus statistics of the derived alleles of biallelic
+    # sites (D = p_AB - p_A p_B, D2 = D^2, r = D / sqrt(p_A q_A p_B q_B), Dz = D (1-2p_A)(1-2p_B),
+    # pi2 = p_A q_A p_B q_B); D_prime and the *_unbiased variants have no documented weighting and are not checked
+    def two_locus(stat, j, k, idx):
+        D, den = ref.biallelic_r2(j, k, idx)
+        sj, sk = ref.sites[j], ref.sites[k]
+        ii = range(ref.n) if idx is None else idx
+        pa = sum(1 for i in ii if sj["geno"][i] != 0) / len(ii)
+        pb = sum(1 for i in ii if sk["geno"][i] != 0) / len(ii)
+        if stat == "r2":
+            return (D * D / den) if den > 1e-12 else None
+        if stat == "r":
+            return (D / math.sqrt(den)) if den > 1e-12 else None
+        if stat == "D":
+            return D
+        if stat == "D2":
+            return D * D
+        if stat == "Dz":
+            return D * (1 - 2 * pa) * (1 - 2 * pb)
+        if stat == "pi2":
+            return den
+        raise KeyError(stat)
+
+    for rep in range(3):
+        stat = rng.choice(["r2", "r2", "D", "D2", "r", "Dz", "pi2"])
         r = rng.random()
         if r < 0.4:
             sets_arg, sets = None, [list(ref.samples)]
@@ -1465,15 +1500,16 @@ def fam_ld(case, ctx, rng):
             rows = sorted(rng.sample(range(S), rng.randint(1, S)))
             cols = sorted(rng.sample(range(S), rng.randint(1, S)))
             sites_arg = [rows, cols]
-        what = f"ld_matrix(sample_sets={sets_arg}, sites={sites_arg}, stat='r2')"
-        ok, got = call(ctx, ts.ld_matrix, sets_arg, sites=sites_arg, stat="r2")
+        what = f"ld_matrix(sample_sets={sets_arg}, sites={sites_arg}, stat={stat!r})"
+        ok, got = call(ctx, ts.ld_matrix, sets_arg, sites=sites_arg, stat=stat)
         if not ok:
             unexpected_error(cs, "ld_matrix", what, got)
             continue
         got = np.asarray(got, dtype=float)
         shape = (len(rows), len(cols)) if not isinstance(sets_arg, list) or not isinstance(sets_arg[0], list) \
             else (len(sets), len(rows), len(cols))
-        ctx.count("ld_matrix:r2")
+        ctx.count("ld_matrix:r2" if stat == "r2" else "ld_matrix:other-stats")
+        ctx.feature(f"ld_matrix:{stat}")
         if got.shape != shape:
             ctx.violation("ld_matrix/shape", f"{what}: shape {got.shape} expected {shape}", cs.detail())
             continue
@@ -1485,13 +1521,13 @@ def fam_ld(case, ctx, rng):
                 for b, k in enumerate(cols):
                     if not (biallelic[j] and biallelic[k]):
                         continue  # multi-allelic weighting is not documented
-                    e = r2_ref(j, k, idx)
+                    e = two_locus(stat, j, k, idx)
                     if e is None:
                         continue  # E6: monomorphic in the sample set
                     compared += 1
                     if not (abs(g3[si, a, b] - e) <= 1e-9):
-                        ctx.violation("ld_matrix/r2-definition",
-                                      f"{what}: r2(site {j}, site {k}) in set {A} = {g3[si, a, b]!r} expected {e!r}",
+                        ctx.violation(f"ld_matrix/{stat}-definition",
+                                      f"{what}: {stat}(site {j}, site {k}) in set {A} = {g3[si, a, b]!r} expected {e!r}",
                                       cs.detail())
                         break
         ctx.count("ld_matrix:entries-compared", compared)
